@@ -81,13 +81,14 @@ Qed.
 Definition trak_wf (file : list N) (t : trak_in) : Prop :=
   static_ok file (mkTS (ti_id t) (ti_tb t) 0 0 1 []) /\ deltas_strict (ti_tb t) = true /\ ti_ts t < 4294967296.
 
-Lemma trak_ends_pre file : forall traks et ets ts0, Forall (trak_wf file) traks -> trak_ends traks et ets = Ok ts0 ->
-  Forall (trak_pre file et ets) traks.
+Lemma trak_ends_from_pre file : forall traks seen et ets ts0, Forall (trak_wf file) traks ->
+  trak_ends_from seen traks et ets = Ok ts0 -> Forall (trak_pre file et ets) traks.
 Proof.
-  induction traks as [|t r IH]; intros et ets ts0 Hwf H; [constructor|].
-  inversion Hwf as [|? ? [Hst [Hd Hts]] Hwf']; subst. cbn [trak_ends] in H.
+  induction traks as [|t r IH]; intros seen et ets ts0 Hwf H; [constructor|].
+  inversion Hwf as [|? ? [Hst [Hd Hts]] Hwf']; subst. cbn [trak_ends_from] in H.
+  destruct (existsb (N.eqb (ti_id t)) seen); [discriminate|].
   destruct (find_trak_end (ti_tb t) (ti_ts t) et ets) as [e| | |] eqn:Ee; try discriminate. cbn [rbind] in H.
-  destruct (trak_ends r et ets) as [r'| | |] eqn:Er; try discriminate.
+  destruct (trak_ends_from (ti_id t :: seen) r et ets) as [r'| | |] eqn:Er; try discriminate.
   constructor; [|eapply IH; eauto].
   pose proof Hst as [Hc _]. cbn [ts_tb] in Hc.
   destruct (find_trak_end_inv (ti_tb t) (ti_ts t) et ets e Hc Hd Ee) as [tet [A [B C]]].
@@ -95,6 +96,10 @@ Proof.
   - unfold deltas_strict in Hd. apply andb_prop in Hd. tauto.
   - exists tet. unfold track_tet. split; [exact A|]. split; assumption.
 Qed.
+
+Lemma trak_ends_pre file : forall traks et ets ts0, Forall (trak_wf file) traks -> trak_ends traks et ets = Ok ts0 ->
+  Forall (trak_pre file et ets) traks.
+Proof. intros traks. exact (trak_ends_from_pre file traks []). Qed.
 
 (* ---------- sizeWithoutMdat: updateChunkOffsets does not resize a box ---------- *)
 Lemma shift_stco_len d : forall l l', shift_stco d l = Ok l' -> lenN l' = lenN l.
@@ -497,9 +502,19 @@ Proof.
   rewrite <- Hpot. exact Hlen.
 Qed.
 
-(* distinct_ids: the tool keys its per-track state by track id (map[uint32]*trakOut), the model by position; the two agree
-   when the ids are distinct, which is the domain the model mirrors the code on (the hypothesis is not used by the proof) *)
+(* the tool keys its per-track state by track id (map[uint32]*trakOut), the model by position; the two agree when the ids
+   are distinct, and findTrakEnds (repaired text, /repo 4fe9823) refuses anything else: success implies distinct ids *)
 Definition distinct_ids (hs : list trak_h) : Prop := NoDup (map (fun h => ti_id (th_trak h)) hs).
+
+Lemma crop_mp4_file_distinct hs ms rest r : crop_mp4_file hs ms rest = Ok r -> distinct_ids hs.
+Proof.
+  unfold crop_mp4_file. intros H. destruct (find_sync_trak hs) as [rf|]; [|discriminate].
+  destruct (find_end_time (ti_tb rf) (ti_ts rf) ms) as [et0| | |]; try discriminate. cbn [rbind] in H.
+  destruct (crop_to_time_sz (map th_trak hs) et0 (ti_ts rf) rest) as [x| | |] eqn:Ec; try discriminate.
+  unfold crop_to_time_sz in Ec.
+  destruct (trak_ends (map th_trak hs) et0 (ti_ts rf)) as [ts0| | |] eqn:Ends; try discriminate.
+  pose proof (trak_ends_distinct _ _ _ _ Ends) as Hn. unfold distinct_ids. rewrite map_map in Hn. exact Hn.
+Qed.
 
 (* what is needed of writeMdat on the input mdat m: when it succeeds on ranges inside the file, it wrote a 32-bit header and
    exactly the bytes of the ranges *)
@@ -508,21 +523,21 @@ Definition mdat_writes (file : list N) (zeof : bool) (m : C08Model.mdat) (rs : l
     ranges_len rs + 8 < 4294967296 /\ mb = C08Model.be32 (ranges_len rs + 8) ++ C08Model.name_mdat ++ out_bytes file rs.
 
 Lemma crop_end_to_end_gen file zeof m hs ms rest pre et ets shifted ranges ks swm outf :
-  Forall (trak_wf file) (map th_trak hs) -> distinct_ids hs ->
+  Forall (trak_wf file) (map th_trak hs) ->
   4611686018427387904 + 2 * total_bytes (map th_trak hs) < 18446744073709551616 ->
   crop_mp4_file hs ms rest = Ok (et, ets, (shifted, ranges, ks, swm)) ->
   lenN pre = rest + sumN (map stbl_var_size shifted) ->
   lenN pre + mdat_out_hdr + 2 * total_bytes (map th_trak hs) < 18446744073709551616 ->
   (Forall (range_in file) ranges -> ranges_len ranges + 8 < 18446744073709551616 -> mdat_writes file zeof m ranges) ->
   crop_mp4_output file zeof m pre ranges = Ok outf ->
-  exists ref hdr, ref_choice hs ref /\ ets = ti_ts ref /\ swm = lenN pre /\
+  exists ref hdr, distinct_ids hs /\ ref_choice hs ref /\ ets = ti_ts ref /\ swm = lenN pre /\
     first_sync_from (ti_tb ref) (u64 (ms * ti_ts ref) / 1000) et /\
     outf = pre ++ hdr ++ out_bytes file ranges /\
     hdr = C08Model.be32 (lenN (out_bytes file ranges) + 8) ++ C08Model.name_mdat /\
     lenN (out_bytes file ranges) + 8 < 4294967296 /\
     Forall2 (out_track file outf (lenN pre) (lenN (out_bytes file ranges)) et ets) (map th_trak hs) shifted.
 Proof.
-  intros Hwf _ HB Hrun Hpre HB2 Hw Hout.
+  intros Hwf HB Hrun Hpre HB2 Hw Hout.
   set (hdr := C08Model.be32 (lenN (out_bytes file ranges) + 8) ++ C08Model.name_mdat).
   assert (Hh : lenN hdr = mdat_out_hdr) by reflexivity.
   destruct (crop_mp4_file_correct file hs ms rest pre hdr et ets shifted ranges ks swm Hwf HB Hrun Hpre Hh HB2)
@@ -543,29 +558,30 @@ Proof.
   cbn [rbind] in Hout. injection Hout as <-.
   pose proof (out_bytes_len file ranges E) as Hlen.
   destruct (Hw E ltac:(rewrite <- Hlen; lia) mb Ew) as [Hlt Hmb].
-  exists ref, hdr. split; [exact A|]. split; [exact B|]. split; [exact C|]. split; [exact D|].
+  exists ref, hdr. split; [exact (crop_mp4_file_distinct _ _ _ _ Hrun)|].
+  split; [exact A|]. split; [exact B|]. split; [exact C|]. split; [exact D|].
   rewrite Hmb, <- Hlen. split; [unfold hdr; rewrite <- app_assoc; reflexivity|]. split; [reflexivity|]. split; [lia|].
   unfold hdr in F. rewrite <- app_assoc in F. exact F.
 Qed.
 
 (* the tool's mode: the input mdat decoded lazily *)
 Lemma crop_end_to_end file zeof startPos large payloadLen hs ms rest pre et ets shifted ranges ks swm outf :
-  Forall (trak_wf file) (map th_trak hs) -> distinct_ids hs ->
+  Forall (trak_wf file) (map th_trak hs) ->
   4611686018427387904 + 2 * total_bytes (map th_trak hs) < 18446744073709551616 ->
   0 < payloadLen -> lenN file < 9223372036854775808 ->
   crop_mp4_file hs ms rest = Ok (et, ets, (shifted, ranges, ks, swm)) ->
   lenN pre = rest + sumN (map stbl_var_size shifted) ->
   lenN pre + mdat_out_hdr + 2 * total_bytes (map th_trak hs) < 18446744073709551616 ->
   crop_mp4_output file zeof (C08Model.mdat_lazy startPos large payloadLen) pre ranges = Ok outf ->
-  exists ref hdr, ref_choice hs ref /\ ets = ti_ts ref /\ swm = lenN pre /\
+  exists ref hdr, distinct_ids hs /\ ref_choice hs ref /\ ets = ti_ts ref /\ swm = lenN pre /\
     first_sync_from (ti_tb ref) (u64 (ms * ti_ts ref) / 1000) et /\
     outf = pre ++ hdr ++ out_bytes file ranges /\
     hdr = C08Model.be32 (lenN (out_bytes file ranges) + 8) ++ C08Model.name_mdat /\
     lenN (out_bytes file ranges) + 8 < 4294967296 /\
     Forall2 (out_track file outf (lenN pre) (lenN (out_bytes file ranges)) et ets) (map th_trak hs) shifted.
 Proof.
-  intros Hwf Hd HB Hp Hf Hrun Hpre HB2 Hout.
-  apply (crop_end_to_end_gen file zeof (C08Model.mdat_lazy startPos large payloadLen) hs ms rest pre et ets shifted ranges ks swm outf Hwf Hd HB Hrun Hpre HB2); [|exact Hout].
+  intros Hwf HB Hp Hf Hrun Hpre HB2 Hout.
+  apply (crop_end_to_end_gen file zeof (C08Model.mdat_lazy startPos large payloadLen) hs ms rest pre et ets shifted ranges ks swm outf Hwf HB Hrun Hpre HB2); [|exact Hout].
   intros Hall Hb mb Ew. exact (write_mdat_lazy_inv file zeof startPos large payloadLen ranges mb Hp Hf Hall Hb Ew).
 Qed.
 
@@ -589,7 +605,7 @@ Proof.
 Qed.
 
 Lemma crop_end_to_end_mem file zeof startPos large payloadLen hs ms rest pre et ets shifted ranges ks swm outf :
-  Forall (trak_wf file) (map th_trak hs) -> distinct_ids hs ->
+  Forall (trak_wf file) (map th_trak hs) ->
   4611686018427387904 + 2 * total_bytes (map th_trak hs) < 18446744073709551616 ->
   C08Spec.box_in_file file startPos large payloadLen = true ->
   crop_mp4_file hs ms rest = Ok (et, ets, (shifted, ranges, ks, swm)) ->
@@ -597,15 +613,15 @@ Lemma crop_end_to_end_mem file zeof startPos large payloadLen hs ms rest pre et 
   lenN pre = rest + sumN (map stbl_var_size shifted) ->
   lenN pre + mdat_out_hdr + 2 * total_bytes (map th_trak hs) < 18446744073709551616 ->
   crop_mp4_output file zeof (C08Model.mdat_mem file startPos large payloadLen) pre ranges = Ok outf ->
-  exists ref hdr, ref_choice hs ref /\ ets = ti_ts ref /\ swm = lenN pre /\
+  exists ref hdr, distinct_ids hs /\ ref_choice hs ref /\ ets = ti_ts ref /\ swm = lenN pre /\
     first_sync_from (ti_tb ref) (u64 (ms * ti_ts ref) / 1000) et /\
     outf = pre ++ hdr ++ out_bytes file ranges /\
     hdr = C08Model.be32 (lenN (out_bytes file ranges) + 8) ++ C08Model.name_mdat /\
     lenN (out_bytes file ranges) + 8 < 4294967296 /\
     Forall2 (out_track file outf (lenN pre) (lenN (out_bytes file ranges)) et ets) (map th_trak hs) shifted.
 Proof.
-  intros Hwf Hd HB Hb Hrun Hin Hpre HB2 Hout.
-  apply (crop_end_to_end_gen file zeof (C08Model.mdat_mem file startPos large payloadLen) hs ms rest pre et ets shifted ranges ks swm outf Hwf Hd HB Hrun Hpre HB2); [|exact Hout].
+  intros Hwf HB Hb Hrun Hin Hpre HB2 Hout.
+  apply (crop_end_to_end_gen file zeof (C08Model.mdat_mem file startPos large payloadLen) hs ms rest pre et ets shifted ranges ks swm outf Hwf HB Hrun Hpre HB2); [|exact Hout].
   intros _ Hlt. exact (write_mdat_mem_inv file zeof startPos large payloadLen ranges Hb Hin Hlt).
 Qed.
 
@@ -705,21 +721,20 @@ Proof. unfold lenN. rewrite firstn_length. lia. Qed.
 Lemma crop_end_to_end_mem_input file zeof startPos large payloadLen hs ms rest pre et ets shifted ranges ks swm outf :
   Forall (chunks_in_payload file (startPos + C08Spec.hdr_len large) (startPos + C08Spec.hdr_len large + payloadLen))
          (map th_trak hs) ->
-  distinct_ids hs ->
   4611686018427387904 + 2 * total_bytes (map th_trak hs) < 18446744073709551616 ->
   C08Spec.box_in_file file startPos large payloadLen = true ->
   crop_mp4_file hs ms rest = Ok (et, ets, (shifted, ranges, ks, swm)) ->
   lenN pre = rest + sumN (map stbl_var_size shifted) ->
   lenN pre + mdat_out_hdr + 2 * total_bytes (map th_trak hs) < 18446744073709551616 ->
   crop_mp4_output file zeof (C08Model.mdat_mem file startPos large payloadLen) pre ranges = Ok outf ->
-  exists ref hdr, ref_choice hs ref /\ ets = ti_ts ref /\ swm = lenN pre /\
+  exists ref hdr, distinct_ids hs /\ ref_choice hs ref /\ ets = ti_ts ref /\ swm = lenN pre /\
     first_sync_from (ti_tb ref) (u64 (ms * ti_ts ref) / 1000) et /\
     outf = pre ++ hdr ++ out_bytes file ranges /\
     hdr = C08Model.be32 (lenN (out_bytes file ranges) + 8) ++ C08Model.name_mdat /\
     lenN (out_bytes file ranges) + 8 < 4294967296 /\
     Forall2 (out_track file outf (lenN pre) (lenN (out_bytes file ranges)) et ets) (map th_trak hs) shifted.
 Proof.
-  intros Hin Hd HB Hb Hrun Hpre HB2 Hout.
+  intros Hin HB Hb Hrun Hpre HB2 Hout.
   set (lo := startPos + C08Spec.hdr_len large) in *. set (hi := lo + payloadLen) in *.
   set (file' := firstn (N.to_nat hi) file).
   destruct (lenN_firstn_le file hi) as [L1 L2]. fold file' in L1, L2.
@@ -733,7 +748,7 @@ Proof.
   (* ... and start inside it *)
   pose proof (crop_range_starts hs ms rest et ets shifted ranges ks swm Hrun) as Hs.
   apply (crop_end_to_end_mem file zeof startPos large payloadLen hs ms rest pre et ets shifted ranges ks swm outf
-           Hwf Hd HB Hb Hrun); try assumption.
+           Hwf HB Hb Hrun); try assumption.
   rewrite Forall_forall in *. intros r Hr. specialize (Hr' r Hr). specialize (Hs r Hr).
   destruct Hs as [tb [c [Htb Ho]]]. apply in_map_iff in Htb. destruct Htb as [t [Et Ht]]. subst tb.
   destruct (Hin t Ht) as [_ Hc]. specialize (Hc c (fst r) Ho).
